@@ -665,6 +665,9 @@ func runCancelProp(col *Collector, focus, tier string, seed int64) {
 		"during a before-hook, during the first or second command, twice in a row, before any run, via Scheduler.Cancel and via a stage condition that cannot be evaluated; " +
 		"then a task run after the cancellation. non-trivial = at least one task in flight or waiting; distinct = distinct scenarios"
 	scs := genCancelScenarios(tier, rng)
+	if focus == "C12" {
+		condVerdictCases(col)
+	}
 	var rmu sync.Mutex
 	var retry []retryJob
 	parallel(len(scs), 12, func(i int) {
@@ -724,3 +727,142 @@ type retryJob struct {
 }
 
 var timingSigs = map[string]bool{"c12-hang": true, "c12-cancel-blocks": true, "c12-run-blocks": true, "c12-cancel-twice": true, "c12-child-exit": true, "c12-process-left": true}
+
+// what a condition decides (Model/Cancel.lean `condVerdict`): the condition of a task (run by the runner's interpreter)
+// and the condition of a stage (a program run by the scheduling loop) ending with exit status 0 / another exit status /
+// no exit status at all, with the run cancelled while the condition is being evaluated or not cancelled at all.
+func condVerdictCases(col *Collector) {
+	type cv struct {
+		level     string // "task" | "stage"
+		cancelled bool
+		end       string
+	}
+	var cvs []cv
+	for _, level := range []string{"task", "stage"} {
+		for _, c := range []bool{false, true} {
+			for _, e := range []string{"zero", "nonzero", "killed"} {
+				cvs = append(cvs, cv{level, c, e})
+			}
+		}
+	}
+	parallel(len(cvs), 6, func(i int) {
+		v := cvs[i]
+		dir := newScratchDir("condv")
+		defer os.RemoveAll(dir)
+		marker, ranMark := filepath.Join(dir, "started"), filepath.Join(dir, "ran")
+		tag := fmt.Sprintf("31.%d%02d", os.Getpid()%100000, i)
+		defer exec.Command("pkill", "-f", "sleep "+tag).Run()
+		cs := Case{Line: fmt.Sprintf("condverdict c=%d e=%s", map[bool]int{false: 0, true: 1}[v.cancelled], v.end), Tags: []string{"condition-verdict", v.level}, NonTrivial: true}
+		cs.Replay = fmt.Sprintf("the condition of a %s ends with %s; run cancelled while it is being evaluated: %v", v.level, map[string]string{"zero": "exit status 0", "nonzero": "exit status 3", "killed": "no exit status (cannot be parsed / started, or ignores the interrupt and is killed)"}[v.end], v.cancelled)
+		// the text of the condition
+		var body string
+		switch {
+		case !v.cancelled && v.end == "zero":
+			body = "exit 0"
+		case !v.cancelled && v.end == "nonzero":
+			body = "exit 3"
+		case v.cancelled && v.end == "killed":
+			body = fmt.Sprintf("echo x > %s; trap '' INT; exec sleep %s", marker, tag)
+		case v.cancelled:
+			body = fmt.Sprintf("echo x > %s; sleep %s & p=$!; trap \"kill $p; exit %s\" INT TERM; wait $p", marker, tag, map[string]string{"zero": "0", "nonzero": "3"}[v.end])
+		}
+		r, err := runner.NewTaskRunner()
+		if err != nil {
+			cs.Fail, cs.Sig = err.Error(), "c12-child-exit"
+			col.Add(cs)
+			return
+		}
+		r.Stdout, r.Stderr = devNull{}, devNull{}
+		t := task.FromCommands("echo ran > " + ranMark)
+		t.Name = "guarded"
+		waitStarted := func() {
+			for k := 0; k < 500; k++ {
+				if _, err := os.Stat(marker); err == nil {
+					break
+				}
+				time.Sleep(10 * time.Millisecond)
+			}
+			time.Sleep(50 * time.Millisecond)
+		}
+		obs := ""
+		done := make(chan struct{})
+		go func() {
+			defer close(done)
+			defer func() {
+				if p := recover(); p != nil {
+					obs = fmt.Sprint("panic: ", p)
+				}
+			}()
+			if v.level == "task" {
+				switch {
+				case !v.cancelled && v.end == "killed":
+					t.Condition = "echo 'unterminated"
+				default:
+					t.Condition = "sh -c '" + strings.ReplaceAll(body, "'", `'"'"'`) + "'"
+				}
+				fin := make(chan error, 1)
+				go func() { fin <- r.Run(t) }()
+				if v.cancelled {
+					waitStarted()
+					r.Cancel()
+				}
+				rerr := <-fin
+				switch {
+				case t.Skipped && rerr == nil:
+					obs = "skipped"
+				case rerr != nil:
+					obs = "error"
+				default:
+					obs = "ran"
+				}
+				return
+			}
+			script := filepath.Join(dir, "cond.sh")
+			os.WriteFile(script, []byte("#!/bin/sh\n"+body+"\n"), 0755)
+			if !v.cancelled && v.end == "killed" {
+				script = filepath.Join(dir, "no-such-program")
+			}
+			st := &scheduler.Stage{Name: "guarded", Task: t, Condition: script}
+			g, gerr := scheduler.NewExecutionGraph(st)
+			if gerr != nil {
+				obs = gerr.Error()
+				return
+			}
+			sd := scheduler.NewScheduler(r)
+			sd.VerifSetPause(time.Millisecond)
+			fin := make(chan error, 1)
+			go func() { fin <- sd.Schedule(g) }()
+			if v.cancelled {
+				waitStarted()
+				sd.Cancel()
+			}
+			<-fin
+			switch st.ReadStatus() {
+			case scheduler.StatusSkipped:
+				obs = "skipped"
+			case scheduler.StatusDone:
+				obs = "ran"
+			default:
+				obs = "error"
+			}
+		}()
+		select {
+		case <-done:
+		case <-time.After(15 * time.Second):
+			obs = "no-return"
+			cs.Fail, cs.Sig = "the run did not return within 15s", "c12-run-blocks"
+		}
+		_, ranErr := os.Stat(ranMark)
+		if obs == "ran" && ranErr != nil {
+			obs = "ran-without-running"
+		}
+		cs.Impl = obs
+		if v.cancelled && cs.Fail == "" && obs != "error" {
+			cs.Fail, cs.Sig = fmt.Sprintf("a %s whose condition was being evaluated when the run was cancelled ended as %q: it was interrupted before it ran anything, which is an error", v.level, obs), "c12-interrupted-success"
+		}
+		if v.cancelled && ranErr == nil {
+			cs.Fail, cs.Sig = "the command of the task ran after the cancellation", "c12-started-after"
+		}
+		col.Add(cs)
+	})
+}
